@@ -19,7 +19,7 @@ from ..effects import Unknown, ceval
 from ..model import AnalysisError, ClassInfo, FuncInfo, dotted, norm_stmt, unparse, walk_no_nested
 from ..totality import bad_arguments, missing_attributes
 from .c11 import dict_protocol
-from .common import QUICK, argval, branch_nodes_of, calls_in, eq_covers_slots, kwarg, raise_dominated_by
+from .common import QUICK, argval, branch_nodes_of, calls_in, eq_covers_slots, kwarg, named_args, raise_dominated_by
 
 EXPLANATION = (
     "Static analysis of the configuration classes on /repo's current source. R1: attribute/keyword existence on every "
@@ -238,7 +238,7 @@ def rule_r4(prog, res) -> None:
                 if not (isinstance(f, ast.Attribute) and f.attr in ("create", "modify")) and not (isinstance(f, ast.Name) and f.id == "cls"):
                     continue
                 own = set(_kwnames(m))
-                sw = [(k.arg, unparse(k.value)) for k in c.keywords if k.arg in own and isinstance(k.value, ast.Name) and k.value.id in own and k.value.id != k.arg]
+                sw = [(n_, unparse(v_)) for n_, v_ in named_args(c) if n_ in own and isinstance(v_, ast.Name) and v_.id in own and v_.id != n_]
                 if sw:
                     res.violation("C15.R4", m, c, f"parameters are forwarded under another name: {sw}", key_extra=f"forward-swapped-{sw[0][0]}")
                 else:
@@ -266,11 +266,10 @@ def rule_r4(prog, res) -> None:
             here = set()
             for ev in p.calls():
                 if ev.callee in ("create", "modify") and isinstance(ev.expr.func, ast.Attribute):
-                    for k in ev.expr.keywords:
-                        if k.arg:
-                            here.add(k.arg)
-                            if isinstance(k.value, ast.Name) and k.value.id in own and k.value.id != k.arg and k.arg in own:
-                                res.violation("C15.R4", m, ev.node, f"parameters are forwarded under another name: {[(k.arg, k.value.id)]}", key_extra=f"forward-swapped-{k.arg}")
+                    for n_, v_ in named_args(ev.expr):
+                        here.add(n_)
+                        if isinstance(v_, ast.Name) and v_.id in own and v_.id != n_ and n_ in own:
+                            res.violation("C15.R4", m, ev.node, f"parameters are forwarded under another name: {[(n_, v_.id)]}", key_extra=f"forward-swapped-{n_}")
             fwd = here if fwd is None else (fwd & here)
         fwd = fwd or set()
         missing = (sigs["ScalesConfig"] | sigs["BinningConfig"]) - fwd
